@@ -137,6 +137,7 @@ impl Prop for C04 {
             queue: QueueCfg::Vec,
             controllers: 1,
             tree,
+            plain488: false,
         };
         let mut t = base_trace("C04", seed, run, "lexing", cfg.clone());
         let tc = TreeCtx::new(&cfg.tree);
